@@ -293,6 +293,17 @@ fn box_small(obs: &mut Obs, thorough: bool) -> Res {
     crate::props::c01::small_box(obs, thorough, |q, t, d, o| check(q, t, d, o))
 }
 
+/// long lists of records under everyday queries (see `gen::gen_long_records`)
+fn random_long_record_lists(src: &mut Src, obs: &mut Obs) -> Res {
+    let (doc, text) = gen_long_records(src);
+    let q = match crate::recog::parse_ast(&text) {
+        Some(q) => q,
+        None => return Err(Failure::new("harness inconsistency: the long-list family produced a query outside the recogniser's language", json!({"query": text}))),
+    };
+    obs.label("long-record-list");
+    check(&q, &text, &doc, obs)
+}
+
 fn direct(case: &Value, obs: &mut Obs) -> Res {
     let (q, text, doc) = parse_direct(case)?;
     check(&q, &text, &doc, obs)
@@ -322,6 +333,7 @@ pub fn prop() -> Prop {
                 name: "random-order",
                 kind: Kind::Random { f: random_order, quick: 200_000, thorough: 4_000_000, len: 400 },
             },
+            Sub { name: "random-long-record-lists", kind: Kind::Random { f: random_long_record_lists, quick: 2_400, thorough: 48_000, len: 20000 } },
             Sub { name: "random-or-chains", kind: Kind::Random { f: random_or_chains, quick: 40_000, thorough: 800_000, len: 200 } },
             Sub { name: "random-hostile-names", kind: Kind::Random { f: random_hostile_names, quick: 80_000, thorough: 1_600_000, len: 400 } },
             Sub { name: "random-member-order-of-the-view", kind: Kind::Random { f: random_member_order_of_the_view, quick: 100_000, thorough: 2_000_000, len: 500 } },
